@@ -1259,6 +1259,157 @@ def r04_8(ctx):
     ctx.check(okn, R, 'path_builder::PathBuilder::new|NonZero', nb.loc(), 'PathBuilder::new() starts a NonZero path', 'PathBuilder::new() does not start a NonZero path')
 
 
+def _dash_state_local(ctx, b, m):
+    an = ctx.an(b)
+    cfg = an.cfg
+    loops = cfg.loops()
+    op_header = None
+    for h, bl in loops.items():
+        if m.bb in bl and (op_header is None or len(bl) > len(loops[op_header])):
+            op_header = h
+    op_blocks = loops.get(op_header, set()) if op_header is not None else set()
+    ds_locals = [l for l in an.defs_of if b.local_ty(l).endswith('DashState')]
+    running = [l for l in ds_locals if b.locals[l].get('name') and any(d.partial and d.bb in op_blocks for d in an.defs_of[l])]
+    return (running[0] if len(running) == 1 else None), op_header, op_blocks
+
+
+def r09_9(ctx):
+    """a dash boundary ends the first dash: wherever the op loop toggles state.on, the first-segment flag (the flag the
+    chopping loops test to decide between the first-dash buffer and the output path) is false by the time it is next
+    tested and by the end of the op — otherwise the pieces after the boundary are appended to the buffered first dash"""
+    R = 'R09.9'
+    b = ctx.body(DASH, R)
+    an = ctx.an(b)
+    cfg = an.cfg
+    key = 'dash::dash_path'
+    m = op_match(ctx, b, R)
+    if m is None:
+        return
+    state, op_header, op_blocks = _dash_state_local(ctx, b, m)
+    cl = chop_loops(ctx, b, m)
+    if not ctx.check(state is not None and 'LineTo' in cl, R, key + '|anchors', b.loc(), 'running dash state and LineTo chopping loop found', 'cannot find the running dash state or the LineTo chopping loop (fail closed)'):
+        return
+    h, lb = cl['LineTo']
+    # the first-segment flag: a bool local assigned `false` inside the chopping loop and tested inside it
+    def reads(t, l):
+        return any(x[0] in ('mem', 'phi') and x[1] == l for x in subterms(t)) or any(x[0] == 'rec' and an.defs[x[1]].local == l for x in subterms(t))
+    tested = {}
+    for si, t in b.terminators('switch'):
+        if si in cfg.reach and t.get('ty') == 'bool':
+            c = strip_all(an.term_at(si, len(b.blocks[si]['st']), t['o']))
+            if c[0] in ('mem', 'phi', 'rec'):
+                l = c[1] if c[0] != 'rec' else an.defs[c[1]].local
+                tested.setdefault(l, []).append(si)
+    flags = []
+    for l in tested:
+        if b.local_ty(l) != 'bool' or not any(si in lb for si in tested[l]):
+            continue
+        if any(d.bb in lb and d.kind == 'assign' and not d.partial and const_val(strip_all(an.def_term(d))) in (0, False, 'false') for d in an.defs_of.get(l, [])):
+            flags.append(l)
+    if not ctx.check(len(flags) == 1, R, key + '|first-segment flag', b.loc(), 'first-segment flag found', 'cannot find the first-segment flag (a bool cleared and tested inside the chopping loop; found %d candidates): fail closed' % len(flags)):
+        return
+    flag = flags[0]
+    # forward may-analysis over (flag known false?, boundary pending?)
+    def transfer_block(bi, st_in):
+        out = set(st_in)
+        viol = None
+        for k2, s in enumerate(b.blocks[bi]['st']):
+            if s['k'] != 'assign':
+                continue
+            p = s['p']
+            if p['l'] == flag and not p['pr']:
+                v = const_val(strip_all(an.rvalue_term(bi, k2, s['rv'])))
+                out = set([('F' if v in (0, False, 'false') else 'U', 0)])
+            elif p['l'] == state and not p['pr']:
+                out = set((f, 0) for f, pd in out)
+            elif p['l'] == state and len(p['pr']) == 1 and p['pr'][0].get('k') == 'field' and p['pr'][0].get('n') == 'on' and bi in op_blocks:
+                out = set((f, 1 if f != 'F' else pd) for f, pd in out)
+        return out
+    IN = {0: frozenset([('U', 0)])}
+    work = [0]
+    bad = {}
+    while work:
+        x = work.pop()
+        st = transfer_block(x, IN[x])
+        t = b.blocks[x]['t']
+        edges = []
+        if t['k'] == 'switch' and t.get('ty') == 'bool' and x in tested.get(flag, []):
+            if any(pd for f, pd in st):
+                bad.setdefault('tested', x)
+            false_t = [tgt for v, tgt in t['targets'] if v == '0']
+            for y in cfg.succ[x]:
+                if false_t and y == false_t[0] and y != t['otherwise']:
+                    edges.append((y, set(('F', pd) for f, pd in st)))
+                else:
+                    edges.append((y, st))
+        else:
+            edges = [(y, st) for y in cfg.succ[x]]
+        for y, sy in edges:
+            if y == op_header and x in op_blocks and any(pd for f, pd in sy):
+                bad.setdefault('end of op', x)
+            new = frozenset(IN.get(y, frozenset()) | sy)
+            if new != IN.get(y):
+                IN[y] = new
+                work.append(y)
+    toggles = [bi for bi in op_blocks for s in b.blocks[bi]['st'] if s['k'] == 'assign' and s['p']['l'] == state and len(s['p']['pr']) == 1 and s['p']['pr'][0].get('n') == 'on']
+    ctx.floor(R, 'toggles of state.on in the op loop', len(toggles), 2)
+    ctx.check(not bad, R, key + '|a dash boundary clears the first-segment flag', call_line(b, list(bad.values())[0]) if bad else b.loc(), 'after every toggle in the op loop the flag is false before it is tested again and before the op ends',
+              'dash_path toggles state.on while the first-segment flag may still be set, and the flag reaches %s unchanged: the next dash is appended to the buffered first dash (the gap is bridged when the buffer is flushed as one polyline)' % ' and '.join('its test' if k == 'tested' else 'the end of the op' for k in bad))
+
+
+def r09_10(ctx):
+    """the chopping loops consume the segment: the length still to be chopped is only ever reduced by the dash length
+    just consumed (len -= state.remaining_length), never re-derived from positions — with a non-negative pattern of
+    positive period the loop then ends after finitely many dashes whatever rounding does to the points"""
+    R = 'R09.10'
+    b = ctx.body(DASH, R)
+    an = ctx.an(b)
+    key = 'dash::dash_path'
+    m = op_match(ctx, b, R)
+    if m is None:
+        return
+    state, op_header, op_blocks = _dash_state_local(ctx, b, m)
+    cl = chop_loops(ctx, b, m)
+    if not ctx.check(state is not None and set(cl) == {'LineTo', 'Close'}, R, key + '|anchors', b.loc(), 'dash state and both chopping loops found', 'cannot find the dash state and the two chopping loops (fail closed)'):
+        return
+    n = 0
+    for v in ('LineTo', 'Close'):
+        h, lb = cl[v]
+        t = b.blocks[h]['t']
+        c = strip_all(an.term_at(h, len(b.blocks[h]['st']), t['o']))
+        neg = False
+        while c[0] == 'un' and c[1] == 'Not':
+            c = strip_all(c[2])
+        ok = c[0] == 'bin' and c[1] in ('Gt', 'Lt')
+        lenl = None
+        if ok:
+            a, r = (c[2], c[3]) if c[1] == 'Gt' else (c[3], c[2])
+            a, r = strip_all(a), strip_all(r)
+            okr = r[0] == 'field' and r[2] == 'remaining_length' and strip_all(r[1])[0] in ('mem', 'phi', 'rec')
+            if a[0] in ('phi', 'mem') and okr:
+                lenl = a[1]
+            elif a[0] == 'rec' and okr:
+                lenl = an.defs[a[1]].local
+        if not ctx.check(lenl is not None, R, key + '|%s loop test' % v, call_line(b, h), 'while len > state.remaining_length', 'the %s chopping loop is not controlled by `len > state.remaining_length` (fail closed)' % v):
+            continue
+        ups = [d for d in an.defs_of.get(lenl, []) if d.bb in lb and d.kind in ('assign', 'call')]
+        good = bool(ups)
+        shown = ''
+        for d in ups:
+            tt = strip_all(an.def_term(d)) if d.kind == 'assign' else ('call',)
+            okd = tt[0] == 'bin' and tt[1] == 'Sub'
+            if okd:
+                x0, x1 = strip_all(tt[2]), strip_all(tt[3])
+                okd = (x0[0] in ('phi', 'mem', 'rec') and (x0[1] == lenl or (x0[0] == 'rec' and an.defs[x0[1]].local == lenl))) and x1[0] == 'field' and x1[2] == 'remaining_length'
+            if not okd:
+                good = False
+                shown = fmt(b, tt) if tt != ('call',) else 'a call result'
+        n += 1
+        ctx.check(good, R, key + '|%s loop consumes the segment' % v, call_line(b, h), 'len -= state.remaining_length is the only update of len in the loop',
+                  'inside the %s chopping loop the remaining length is set to %s instead of being reduced by the dash just consumed: when a dash is shorter than the spacing of floats at the current coordinates the emitted point does not move and the loop never ends' % (v, shown or 'nothing'))
+    ctx.floor(R, 'chopping loops', n, 2)
+
+
 def r09_7(ctx):
     """a dash that is still on when the closing segment ends is drawn up to the subpath's start: on the `on` branch after
     the closing segment was chopped, every path closes the outline (whole subpath on), re-joins a first dash known to be
@@ -1443,6 +1594,33 @@ def r04_10(ctx):
     outs = at.get(stop, set())
     ctx.check(bool(outs) and all(st[0] == 'S' for st in outs), R, key + '|Close keeps the cursor', b.loc(), 'Close arm: cursor Some on entry => Some on exit (exit states %s)' % sorted(outs),
               'the Close arm can be entered with a current point and left without one (exit states %s), e.g. move_to; close; line_to: the subpath has no segment yet, its start is the move_to point, but `%s` becomes None and the following segment is never stroked (fill and flatten continue from the start point)' % (sorted(outs), b.local_name(cur)))
+
+
+def r04_15(ctx):
+    """whether a vertex gets its join and an end gets its cap is not decided by the geometry of the turn: in
+    stroke_to_path no ordering comparison of floats other than the width test guards a join_line / cap_line call (an exact
+    equality test is let through: the join between equal normals is empty).  The joins of shallow turns are slivers
+    only at small widths; their width grows with the stroke width."""
+    R = 'R04.15'
+    b = ctx.body(ST + 'stroke_to_path', R)
+    an = ctx.an(b)
+    key = 'stroke::stroke_to_path'
+    n = 0
+    for bi, d, ct in calls_in(ctx, b):
+        if d not in (ST + 'join_line', ST + 'cap_line'):
+            continue
+        n += 1
+        bad = None
+        for cond, truth, si in bool_guards(ctx, b, bi):
+            for x in subterms(cond):
+                if x[0] == 'bin' and x[1] in ('Lt', 'Le', 'Gt', 'Ge'):
+                    leaves_style = all(strip_all(y)[0] == 'const' or (field_path(strip_all(y))[0] in (('param', 2), ('deref', ('param', 2))) ) for y in (x[2], x[3]))
+                    isfloat = any(z[0] == 'const' and z[1] in ('f32', 'f64') for z in subterms(x)) or any(z[0] == 'call' and isinstance(z[1], str) and ('dot' in z[1] or 'cross' in z[1] or 'f32' in z[1]) for z in subterms(x))
+                    if not leaves_style and isfloat and bad is None:
+                        bad = cond
+        ctx.check(bad is None, R, key + '|%s at bb-order %d not conditioned on the turn' % (d.split('::')[-1], n), call_line(b, bi), 'guards: width test, Option states, subpath flags',
+                  'a %s call in stroke_to_path is guarded by %s: the %s is left out for some vertices depending on their geometry, although the region it covers scales with the stroke width' % (d.split('::')[-1], fmt(b, bad) if bad else '', 'join' if 'join' in d else 'cap'))
+    ctx.floor(R, 'join/cap call sites in stroke_to_path', n, 8)
 
 
 def r04_12(ctx):
